@@ -9,6 +9,7 @@ from simkit.rng import Rng
 from worlds import swref
 from checks import swgen as G
 from models import of10wire as W
+from models import rawframe as F
 
 PROP = "C18"
 LEVEL = "exploration"
@@ -38,13 +39,42 @@ EXPECT_PROBES = ["pi_buffered", "pi_unbuffered", "pi_truncated",
                  "buffer_used", "buffer_bogus"]
 
 
+def _after_controller(r, nports):
+  """what an action list may go on to do after its output:CONTROLLER: the
+  packet the buffer id stands for is the one that existed at that point"""
+  if r.chance(0.5):
+    return []
+  tail = []
+  for _ in range(r.randint(1, 3)):
+    k = r.pick(["set_nw_dst", "set_nw_src", "set_tp_dst", "set_tp_src",
+                "set_nw_tos", "set_vlan_vid", "set_vlan_pcp", "set_dl_dst",
+                "strip_vlan"])
+    if k in ("set_nw_dst", "set_nw_src"):
+      tail.append([k, F.ip(172, 16, 0, r.randint(1, 9))])
+    elif k in ("set_tp_dst", "set_tp_src"):
+      tail.append([k, r.pick([53, 2007, 65535])])
+    elif k == "set_nw_tos":
+      tail.append([k, r.pick([0x10, 0xb8])])
+    elif k == "set_vlan_vid":
+      tail.append([k, r.pick([7, 100])])
+    elif k == "set_vlan_pcp":
+      tail.append([k, r.pick([1, 7])])
+    elif k == "set_dl_dst":
+      tail.append([k, G.mac_hex(55)])
+    else:
+      tail.append([k])
+  if r.chance(0.5):
+    tail.append(["output", r.randint(1, nports), 0])
+  return tail
+
+
 def gen_plan(seed, tier):
   r = Rng(seed)
   cfg = G.sw_cfg(r, max_buffers=r.pick([0, 1, 2, 3, 4]),
                  max_entries=0x7fffffff,
                  miss_send_len=r.pick([0, 14, 64, 128, 1500]))
   nports = cfg["nports"]
-  frames = [(G.gen_frame(r, rich=r.chance(0.3)), r.randint(1, nports))
+  frames = [(G.gen_frame(r, rich=r.chance(0.5)), r.randint(1, nports))
             for _ in range(r.randint(2, 4))]
   frames = [(fs, p) for fs, p in frames if fs["kind"] not in ("snap", "llc")] \
       or [(G.gen_frame(r), 1)]
@@ -56,7 +86,8 @@ def gen_plan(seed, tier):
     steps.append({"op": "flow_mod", "m": G.match_from_key(key, r, keep=0.3),
                   "cmd": W.FC_ADD, "prio": 10,
                   "acts": [["output", W.OFPP_CONTROLLER,
-                            r.pick([0, 10, 60, 0xffff])]],
+                            r.pick([0, 10, 60, 0xffff])]]
+                  + _after_controller(r, nports),
                   "cookie": 1, "idle": 0, "hard": 0, "flags": 0})
   n = r.randint(8, 60 if tier == "thorough" else 30)
   for i in range(n):
@@ -99,7 +130,8 @@ def gen_plan(seed, tier):
       fs, port = r.pick(frames)
       steps.append({"op": "packet_out", "in_port": W.OFPP_NONE,
                     "acts": [["output", W.OFPP_CONTROLLER,
-                              r.pick([0, 16, 0xffff])]], "f": fs})
+                              r.pick([0, 16, 0xffff])]]
+                    + _after_controller(r, nports), "f": fs})
   return {"prop": PROP, "seed": seed, "cfg": cfg, "steps": steps}
 
 
